@@ -59,7 +59,80 @@ const maxClients = 4
 
 type ent struct {
 	p     string
-	lname string // server-originated Listener/Add of this listener
+	lname string // a retained Listener/Add event of this listener (exact registered name) ...
+	raw   string // ... recorded request of this operator ("" = the teamserver's announcement)
+}
+
+// Listener names come in representation classes; HEAD registers a name verbatim and
+// compares names exactly, so names that differ only by padding or letter case are
+// different listeners, and a removal by a padded / re-cased variant removes nothing.
+var nameClasses = []string{"plain", "lead-space", "trail-space", "lead-tab", "trail-tab-space", "inner-space", "special-chars", "non-ascii", "very-long",
+	"collide:case-of-other", "collide:padded-other", "collide:trimmed-other", "collide:prefix-of-other", "collide:other-plus-suffix"}
+
+func (w *world) listenerName(class string, pick int) string {
+	w.nextL++
+	base := fmt.Sprintf("L%d", w.nextL)
+	var others []string
+	others = append(others, w.lsn...)
+	others = append(others, w.gone...)
+	other := ""
+	if len(others) > 0 {
+		other = others[pick%len(others)]
+	}
+	swapCase := func(x string) string {
+		if u := strings.ToUpper(x); u != x {
+			return u
+		}
+		return strings.ToLower(x)
+	}
+	switch class {
+	case "lead-space":
+		return "  " + base
+	case "trail-space":
+		return base + " "
+	case "lead-tab":
+		return "\t" + base
+	case "trail-tab-space":
+		return base + "\t "
+	case "inner-space":
+		return base + " http  listener\tA"
+	case "special-chars":
+		return base + `_%*'"\;--`
+	case "non-ascii":
+		return "Überwachung-" + base + "-日本語-ß"
+	case "very-long":
+		return base + "-" + strings.Repeat("n", 3000)
+	case "collide:case-of-other":
+		if other != "" {
+			return swapCase(other)
+		}
+	case "collide:padded-other":
+		if other != "" {
+			return " " + other + " "
+		}
+	case "collide:trimmed-other":
+		if t := strings.TrimSpace(other); t != "" {
+			return t
+		}
+	case "collide:prefix-of-other":
+		if len(other) > 1 {
+			return other[:len(other)-1]
+		}
+	case "collide:other-plus-suffix":
+		if other != "" {
+			return other + "x"
+		}
+	}
+	return base
+}
+
+func (w *world) isLive(name string) bool {
+	for _, l := range w.lsn {
+		if l == name {
+			return true
+		}
+	}
+	return false
 }
 
 type mclient struct {
@@ -85,6 +158,7 @@ type world struct {
 	free    []string
 	anyDead bool
 	ghosts  []*mclient
+	gone    []string // names of removed listeners
 	viaSender *mclient
 	removedViaRequest map[string]bool
 }
@@ -101,9 +175,11 @@ func (w *world) alive() []*mclient {
 	return out
 }
 
-// isRawAdd: a Listener/Add *request* as an operator sent it (Head.User set).  The real
-// client ignores these in a replay (Packager.cc DispatchListener: "if from operator then
-// ignore it"); they are left out of the comparison on both sides.
+// isRawAdd: a Listener/Add *request* as an operator sent it (Head.User set).  handleRequest
+// records every incoming message, so the request sits in the retained list right before the
+// teamserver's own announcement; the real client ignores it in a replay (Packager.cc
+// DispatchListener: "if from operator then ignore it").  ListenerRemove prunes both, and the
+// model holds both.
 func isRawAdd(p string) bool {
 	return strings.HasPrefix(p, "ladd/") && !strings.HasPrefix(p, "ladd//")
 }
@@ -137,9 +213,6 @@ func (w *world) expect(m *mclient, want []string, sig string) *core.Violation {
 				return core.V("frame|not-one-package", "operator %s received a websocket message that is not exactly one JSON package: %v: %.200q", m.user, err, fr.Data)
 			}
 			got := wsx.Proj(pk)
-			if isRawAdd(got) {
-				continue
-			}
 			if got != p {
 				time.Sleep(2 * time.Millisecond)
 				var next []string
@@ -187,7 +260,7 @@ func (w *world) nothingPending(sig string) *core.Violation {
 			if err != nil {
 				return core.V("frame|not-one-package", "operator %s: %v: %.200q", m.user, err, fr.Data)
 			}
-			if p := wsx.Proj(pk); !isRawAdd(p) {
+			if p := wsx.Proj(pk); true {
 				return core.V(sig+"|unexpected|"+wsx.KindOf(strings.TrimPrefix(p, "!")), "operator %s received %q which the model does not expect (duplicate or misdirected delivery)", m.user, p)
 			}
 		}
@@ -230,6 +303,9 @@ func (w *world) connect(sig string) *core.Violation {
 	want := append([]string{"init/success"}, w.replay()...)
 	want = append(want, w.sessions()...)
 	if v := w.expect(m, want, sig); v != nil {
+		return v
+	}
+	if v := w.foldCheck(user, want); v != nil {
 		return v
 	}
 	if v := w.expectAll("newuser/"+user, m, "live"); v != nil {
@@ -349,9 +425,6 @@ func (w *world) connectCut(op Op) *core.Violation {
 			return core.V("frame|not-one-package", "%v: %.200q", err, fr.Data)
 		}
 		p := wsx.Proj(pk)
-		if isRawAdd(p) {
-			continue
-		}
 		if i >= len(want) || want[i] != p {
 			return core.V("replay|wrong|before-the-cut", "newcomer %s (transport failing at frame %d, %s): frame %d is %q, the model expects %v", user, k, class, i, p, want)
 		}
@@ -360,6 +433,42 @@ func (w *world) connectCut(op Op) *core.Violation {
 	w.clients = append(w.clients, m)
 	m.id, _ = w.fx.ClientByAddr(c.Local)
 	w.anyDead = true
+	return nil
+}
+
+// foldCheck: the replay the newcomer received (it equals want), folded the way the client
+// folds it - an Add from the teamserver adds the listener, an Add recorded from an operator
+// is ignored, a Remove removes by exact name - must show exactly the listeners that exist.
+func (w *world) foldCheck(user string, replay []string) *core.Violation {
+	shown := map[string]bool{}
+	for _, p := range replay {
+		switch {
+		case strings.HasPrefix(p, "ladd//"):
+			name := p[len("ladd//"):]
+			name = name[:strings.LastIndex(name, "/")]
+			shown[name] = true
+		case strings.HasPrefix(p, "lrem/"):
+			rest := p[len("lrem/"):]
+			delete(shown, rest[strings.Index(rest, "/")+1:])
+		}
+	}
+	actual := map[string]bool{}
+	for _, l := range w.fx.TS.Listeners {
+		actual[l.Name] = true
+	}
+	for n := range shown {
+		if !actual[n] {
+			return core.V("replay|folded-replay-shows-a-listener-that-does-not-exist", "newcomer %s: after its replay the client shows listener %q, which the teamserver does not have (it has %d)", user, clipS(n, 80), len(actual))
+		}
+	}
+	for n := range actual {
+		if !shown[n] {
+			return core.V("replay|folded-replay-lacks-an-existing-listener", "newcomer %s: the teamserver has listener %q, which the replay does not leave on the client", user, clipS(n, 80))
+		}
+	}
+	if len(actual) != len(w.lsn) {
+		return core.V("listeners|registered-set-differs-from-model", "the teamserver has %d listeners, the history accounts for %d", len(actual), len(w.lsn))
+	}
 	return nil
 }
 
@@ -578,9 +687,11 @@ func (w *world) step1(op Op) *core.Violation {
 		return w.expectAll(p, nil, "live")
 
 	case "ladd":
-		w.nextL++
-		name := fmt.Sprintf("L%d", w.nextL)
-		ext := op.J%2 == 1
+		name := w.listenerName(nameClasses[op.J%len(nameClasses)], op.I)
+		if w.isLive(name) {
+			return nil // exactly this name is in use (the teamserver would refuse it)
+		}
+		ext := (op.J/len(nameClasses))%2 == 1
 		if via {
 			info := map[string]any{"Name": name, "Protocol": "Smb", "PipeName": "pipe-" + name}
 			if ext {
@@ -589,6 +700,7 @@ func (w *world) step1(op Op) *core.Violation {
 			setVia()
 			sender.c.SendJSON(wsx.Pkg(T.Listener.Type, sender.user, T.Listener.Add, info))
 			w.removedViaRequest[name] = true // (remembers how it was added)
+			w.retained = append(w.retained, ent{p: "ladd/" + sender.user + "/" + name + "/", lname: name, raw: sender.user})
 		} else {
 			var err error
 			if ext {
@@ -601,6 +713,7 @@ func (w *world) step1(op Op) *core.Violation {
 			}
 		}
 		w.lsn = append(w.lsn, name)
+		// announced under exactly the name that was asked for
 		p := "ladd//" + name + "/Online"
 		w.retained = append(w.retained, ent{p: p, lname: name})
 		return w.expectAll(p, nil, "live")
@@ -611,7 +724,24 @@ func (w *world) step1(op Op) *core.Violation {
 		}
 		k := op.I % len(w.lsn)
 		name := w.lsn[k]
-		w.lsn = append(w.lsn[:k], w.lsn[k+1:]...)
+		// by the exact name, or by a variant that a trimming / case-folding comparison would
+		// take for the same listener (HEAD compares exactly: such a removal removes nothing,
+		// but the request and the Remove event are still recorded and broadcast)
+		switch op.J % 6 {
+		case 3:
+			if t := strings.TrimSpace(name); t != name {
+				name = t
+			} else {
+				name = name + " "
+			}
+		case 4:
+			if u := strings.ToUpper(name); u != name {
+				name = u
+			} else {
+				name = strings.ToLower(name)
+			}
+		}
+		exists := w.isLive(name)
 		if via {
 			setVia()
 			sender.c.SendJSON(wsx.Pkg(T.Listener.Type, sender.user, T.Listener.Remove, map[string]any{"Name": name}))
@@ -620,14 +750,25 @@ func (w *world) step1(op Op) *core.Violation {
 			pk := wsx.Pkg(T.Listener.Type, "", T.Listener.Remove, map[string]any{"Name": name})
 			ts.DispatchEvent(pk)
 		}
-		// "minus listeners since removed": the listener's Add event leaves the retained list
-		var keep []ent
-		for _, e := range w.retained {
-			if e.lname != name {
-				keep = append(keep, e)
+		if exists {
+			for i, l := range w.lsn {
+				if l == name {
+					w.lsn = append(w.lsn[:i], w.lsn[i+1:]...)
+					break
+				}
 			}
+			w.gone = append(w.gone, name)
+			// "minus listeners since removed": every retained Add event of exactly this listener
+			// (announcement and recorded request) leaves the retained list
+			var keep []ent
+			for _, e := range w.retained {
+				if e.lname != name {
+					keep = append(keep, e)
+				}
+			}
+			w.retained = keep
 		}
-		w.retained = append(keep, ent{p: "lrem//" + name})
+		w.retained = append(w.retained, ent{p: "lrem//" + name})
 		return w.expectAll("lrem//"+name, nil, "live")
 
 	case "lerr":
@@ -639,7 +780,7 @@ func (w *world) step1(op Op) *core.Violation {
 		ts.EventListenerError(name, errors.New("listen tcp: "+tk))
 		for i := range w.retained {
 			if w.retained[i].lname == name {
-				w.retained[i].p = "ladd//" + name + "/Offline"
+				w.retained[i].p = "ladd/" + w.retained[i].raw + "/" + name + "/Offline"
 			}
 		}
 		p := "lerr/" + name + "/" + tk
@@ -817,6 +958,7 @@ func classifyA(c CaseA) core.Class {
 			}
 		case "ladd":
 			nL++
+			cl.Labels = append(cl.Labels, "lname:"+nameClasses[op.J%len(nameClasses)])
 			if op.Via {
 				cl.Labels = append(cl.Labels, "ladd-via-operator")
 			}
@@ -824,6 +966,7 @@ func classifyA(c CaseA) core.Class {
 			if nL > 0 {
 				nRem++
 				remAfterAdd = true
+				cl.Labels = append(cl.Labels, "lrem:"+[]string{"by-exact-name", "by-exact-name", "by-exact-name", "by-trim-variant", "by-case-variant", "by-exact-name"}[op.J%6])
 			}
 		case "cut":
 			if nConn > 0 {
